@@ -295,7 +295,7 @@ impl Property for C14 {
     type Case = Case;
     const ID: &'static str = "C14";
     fn cases(tier: Tier) -> u64 {
-        tier.pick(1_600, 60_000)
+        tier.pick(12_000, 150_000)
     }
     fn strategy(_tier: Tier) -> BoxedStrategy<Case> {
         let id = || proptest::collection::vec(any::<u8>(), 0..=8);
